@@ -94,6 +94,13 @@ func pattern(n, salt int) []byte {
 
 func newRecordRunner(e *env) func(*env, int, []byte) *Result {
 	logs := openLogs(e, recFileSize, true)
+	// a third log with the default Options.VerifyValueChecksum = false, only to MEASURE what point reads do
+	// with altered bytes in the default configuration (reported in the evidence, not judged)
+	var err error
+	noVerify, err = badger.VerifNewLog(filepath.Join(e.tmp, "nv.vlog"), 11, recFileSize, nil, false)
+	if err != nil {
+		vh.Fatalf("creating log: %v", err)
+	}
 	return func(e *env, idx int, line []byte) *Result {
 		r := &Result{OK: true}
 		var c recCase
@@ -186,6 +193,8 @@ func newRecordRunner(e *env) func(*env, int, []byte) *Result {
 	}
 }
 
+var noVerify *badger.VerifLog
+
 func firstDiff(a, b []byte) int {
 	for i := 0; i < len(a) && i < len(b); i++ {
 		if a[i] != b[i] {
@@ -221,7 +230,7 @@ func recordInFile(r *Result, lg *badger.VerifLog, c *recCase, tag, class string,
 	// single-byte corruption: every byte for small records, field boundaries plus a sample otherwise
 	data := lg.Data()
 	var positions []int
-	if c.Lay.Len <= 400 || (e.thorough && c.Lay.Len <= 20000 && idx%7 == 0) {
+	if c.Lay.Len <= 400 || (e.thorough && c.Lay.Len <= 2500 && idx%5 == 0) {
 		for p := 0; p < c.Lay.Len; p++ {
 			positions = append(positions, p)
 		}
@@ -248,7 +257,9 @@ func recordInFile(r *Result, lg *badger.VerifLog, c *recCase, tag, class string,
 		_, cls := lg.SafeReadAt(off)
 		r.Evals++
 		part := partOf(c, p)
-		if cls == "" {
+		if cls == "" && part == "lengths" && crcCollision(data[off:]) {
+			r.stat("crc_collisions", 1)
+		} else if cls == "" {
 			r.fail("ds:corrupt record returned by safeRead.Entry "+part+" "+tag,
 				fmt.Sprintf("%s, byte %d (%s) xor %#x at offset %d: entry returned without error", class, p, part, mask, off))
 		} else if (part == "key" || part == "value" || part == "crc" || part == "meta") && cls != "truncate" {
@@ -260,6 +271,19 @@ func recordInFile(r *Result, lg *badger.VerifLog, c *recCase, tag, class string,
 				fmt.Sprintf("%s, byte %d (%s) xor %#x at offset %d: value returned with VerifyValueChecksum on", class, p, part, mask, off))
 		}
 		r.Evals++
+		if !lg.Encrypted() && part == "value" && p%16 == 0 {
+			// default configuration (no checksum on point reads): measured, not judged
+			nd := noVerify.Data()
+			copy(nd[off:], data[off:int(off)+c.Lay.Len])
+			if v2, err := noVerify.ReadValue(off, uint32(c.Lay.Len)); err == nil && !bytes.Equal(v2, val) {
+				r.stat("default_options_point_read_returned_altered_value", 1)
+			} else {
+				r.stat("default_options_point_read_rejected", 1)
+			}
+			for i := int(off); i < int(off)+c.Lay.Len; i++ {
+				nd[i] = 0
+			}
+		}
 		data[int(off)+p] ^= mask
 	}
 }
@@ -284,6 +308,31 @@ func hugeAlloc(rec []byte) bool {
 		return false
 	}
 	return uint32(vlen) > 16<<20
+}
+
+// crcCollision tells whether the bytes at rec parse as a record whose stored CRC-32C genuinely matches
+// its (re-delimited) header|key|value. After a corruption of a LENGTH byte the checksummed region
+// changes, so a match is possible with probability 2^-32 per experiment; such a record is accepted by
+// any CRC-32 based reader and is not a deviation of the code (counted, never seen so far).
+func crcCollision(rec []byte) bool {
+	if len(rec) < 5 {
+		return false
+	}
+	i := 2
+	var f [3]uint64
+	for x := 0; x < 3; x++ {
+		v, n := binary.Uvarint(rec[i:])
+		if n <= 0 {
+			return false
+		}
+		f[x] = v
+		i += n
+	}
+	end := i + int(uint32(f[0])) + int(uint32(f[1]))
+	if end+4 > len(rec) {
+		return false
+	}
+	return binary.BigEndian.Uint32(rec[end:]) == crc32.Checksum(rec[:end], castagnoli)
 }
 
 func clsName(c string) string {
